@@ -136,6 +136,10 @@ MUTANTS = [
     ("c14-bar-key-guard-negated", "C14", BAR, "        if self.key_signature is not None:\n            self.key_signature = Key.transpose_key", "        if self.key_signature is None:\n            self.key_signature = Key.transpose_key", {"DELEG"}),
     ("c04-sort-skipped-when-flagged", "C04", ABS, "        self._messages.sort(key=lambda x: (x.time, -1 if x.channel is None else x.channel, x.message_type, x.note))", "        if getattr(self, \"_sorted\", False):\n            return\n        self._messages.sort(key=lambda x: (x.time, -1 if x.channel is None else x.channel, x.message_type, x.note))", {"ABS-SORTED"}),
     ("c20-position-from-range-table", "C20", MT, "        return CircleOfFifths.circle_of_fifths_order.index(Note(note_val % 12)) - 5", "        return [CircleOfFifths.circle_of_fifths_order.index(Note(v % 12)) - 5 for v in range(21, 109)][note_val - 21]", {"VS-POS", "VS-MOD"}),
+    ("c18-set-channel-clamps-argument", "C18", REL, "    def set_channel(self, channel: int) -> None:\n        for msg in self._messages:", "    def set_channel(self, channel: int) -> None:\n        channel = min(15, max(0, channel))\n        for msg in self._messages:", {"REBIND"}),
+    ("c08-insort-before-equal-ticks", "C08", "scoda/misc/util.py", "if message.time < collection[mid].time:", "if message.time <= collection[mid].time:", {"BISECT"}),
+    ("c18-created-marker-channel-never-inferred", "C18", REL, "            if default_channel is None and msg.channel is not None:\n                default_channel = msg.channel\n\n            if msg.message_type == MessageType.WAIT:\n                current_point_in_time += msg.time", "            if default_channel is not None and msg.channel is not None:\n                default_channel = msg.channel\n\n            if msg.message_type == MessageType.WAIT:\n                current_point_in_time += msg.time", {"DEFCHAN"}),
+    ("c10-identity-between-durations", "C10", ABS, "self_msg_value != other_msg_value", "self_msg_value is not other_msg_value", {"IDENT", "EQ1"}),
     ("c09-alias-input", "C09", SEQ, "sequences = [sequence for sequence in sequences_input]", "sequences = sequences_input", {"PURE"}),
     ("c09-half-length", "C09", SEQ, "length_bar = int(PPQN * (current_ts_numerator / (current_ts_denominator / 4)))", "length_bar = int(PPQN * (current_ts_numerator / (current_ts_denominator / 2)))", {"LEN"}),
     ("c09-swapped-sig", "C09", SEQ, "Bar(sequence_to_add, current_ts_numerator, current_ts_denominator,", "Bar(sequence_to_add, current_ts_denominator, current_ts_numerator,", {"SIG"}),
@@ -311,6 +315,9 @@ EQUIVALENTS = [
     ("pad-measure-as-sum", ("C18", "C10", "C09"), [(REL,
       "        current_length = 0\n        default_channel = None\n\n        for msg in self._messages:\n            if default_channel is None and msg.channel is not None:\n                default_channel = msg.channel\n\n            if msg.message_type == MessageType.WAIT:\n                current_length += msg.time\n\n                if current_length >= padding_length:\n                    break\n",
       "        default_channel = next((msg.channel for msg in self._messages if msg.channel is not None), None)\n        current_length = sum(msg.time for msg in self._messages if msg.message_type == MessageType.WAIT)\n")]),
+    ("split-capacities-as-list", ("C08", "C09"), [(REL,
+      "        split_sequences = []\n        working_memory = [msg.copy() for msg in self._messages]",
+      "        capacities = list(capacities)\n        split_sequences = []\n        working_memory = [msg.copy() for msg in self._messages]")]),
     ("transpose-shift-helper", ("C14",), [(REL,
       "                msg.note += transpose_by\n                while msg.note < NOTE_LOWER_BOUND:\n                    had_to_shift = True\n                    msg.note += 12\n                while msg.note > NOTE_UPPER_BOUND:\n                    had_to_shift = True\n                    msg.note -= 12\n",
       "                if RelativeSequence._shift_note(msg, transpose_by):\n                    had_to_shift = True\n"),
@@ -829,6 +836,21 @@ def _job(job):
             text = text.replace(o_, n_, 1)
         var = base.with_source(path, text)
         tag = mid
+    elif kind == "operator":
+        from .mutops import apply as _apply
+        _, _, q, idx, okind, desc = job
+        fi = base.functions[q]
+        tree = ast.parse(base.sources[fi.file])
+        target = next((n for n in ast.walk(tree) if isinstance(n, ast.FunctionDef) and n.name == fi.name and n.lineno == fi.node.lineno), None)
+        tag = f"{q}: {desc}"
+        if target is None:
+            return tag, kind, "anchor function missing", []
+        try:
+            _apply(target, idx, okind)
+            ast.fix_missing_locations(tree)
+            var = base.with_source(fi.file, ast.unparse(tree))
+        except Exception as e:
+            return tag, kind, f"mutant does not build: {type(e).__name__}", []
     elif kind == "equiv":
         _, _, eid, reps = job
         var = base
@@ -1009,6 +1031,26 @@ def run(ctx: Ctx) -> None:
     for eid, props, reps in EQUIVALENTS:
         if prop in props:
             jobs.append(("equiv", prop, eid, reps))
+    # standard mutation operators on the property's anchor functions (a deterministic sample of at most 300)
+    from .mutops import mutants_of
+    opjobs = []
+    for q in ANCHORS.get(prop, []):
+        fi_ = ctx.p.functions.get(q)
+        if fi_ is None:
+            continue
+        tree_ = ast.parse(ctx.p.sources[fi_.file])
+        tgt_ = next((n for n in ast.walk(tree_) if isinstance(n, ast.FunctionDef) and n.name == fi_.name and n.lineno == fi_.node.lineno), None)
+        if tgt_ is None:
+            continue
+        for idx, okind, desc in mutants_of(tgt_):
+            opjobs.append(("operator", prop, q, idx, okind, desc))
+    if len(opjobs) > 300:
+        seed_ = int(os.environ.get("VERIF_SEED", "1") or 1)
+        stride = len(opjobs) / 300.0
+        opjobs = [opjobs[int((i * stride + seed_) % len(opjobs))] for i in range(300)]
+        opjobs = list(dict.fromkeys(opjobs))
+    n_op_total = len(opjobs)
+    jobs += opjobs
     _BASE = ctx.p
     nproc = max(1, min(16, os.cpu_count() or 1, len(jobs)))
     if nproc > 1 and len(jobs) > 3:
@@ -1017,8 +1059,17 @@ def run(ctx: Ctx) -> None:
     else:
         results = [_job(j) for j in jobs]
     silent, noisy = [], []
+    op_reported, op_error, op_silent = 0, 0, []
     for tag, kind, err, fs in results:
         newf = [f for f in fs if f[0] not in base]
+        if kind == "operator":
+            if newf:
+                op_reported += 1
+            elif err:
+                op_error += 1
+            else:
+                op_silent.append(tag)
+            continue
         if kind == "mutant":
             rules = expect[tag]
             if err and not newf:
@@ -1042,6 +1093,11 @@ def run(ctx: Ctx) -> None:
     ctx.extra["selfcheck"] = {
         "independent_seeded_changes": indep,
         "equivalent_patches": _equivalent_patches(ctx, base),
+        "mutation_operators": {"functions": list(ANCHORS.get(prop, [])), "mutants": n_op_total, "reported": op_reported, "analysis_aborted": op_error,
+                               "silent": len(op_silent), "silent_examples": sorted(op_silent)[:60],
+                               "note": "comparison flip / arithmetic swap / constant+1 / boolean flip / statement deletion / condition negation / break-continue "
+                                       "deletion on the anchor functions; silent mutants were triaged by hand (DESIGN section 7): equivalent, "
+                                       "crash-on-first-use, logging, or arithmetic outside the decided clauses"},
         "seeded_breaks": {"total": len(detected) + len(missed) + len(errors), "detected": len(detected), "missed": missed,
                           "analysis_error_instead": errors, "skipped_anchor_missing": skipped, "detail": detected},
         "behaviour_preserving_rewrites": {"total": len(silent) + len(noisy), "silent": len(silent), "not_silent": noisy},
